@@ -52,4 +52,5 @@ def run(ctx):
                        "predicates, plus seeded random sets of 2-5 in random order; each is compiled by the real lalr.Compile in a grammar where all "
                        "alternatives reduce in one state; TLC checks the recorded decision list against all 8 truth assignments and the rejection of non-exclusive / "
                        "inconsistently ordered sets. Non-trivial: accepted sets with at least one decision case." % ("" if thorough else " 6th"))
-    ctx.assumptions += ["exclusive, ordered sets the compiler nevertheless rejects are allowed by the statement", "run-time layer: a sample of accepted sets is generated as plain and cancellable parsers and run on all 8 predicate outcomes"]
+    ctx.assumptions += ["exclusive, ordered sets the compiler nevertheless rejects are allowed by the statement", "run-time layer: a sample of accepted sets is generated as plain and cancellable parsers and run on all 8 predicate outcomes; random sets whose alternatives start with "
+                        "different terminals (in conflict per terminal only) on 16 texts; grammars with 20, 33 and 40 predicate pairs (up to 80 lookahead nonterminals)"]
